@@ -560,26 +560,26 @@ package interpreter
 //@   external-below ref(st)
 //@   requires [state] queryOk(st) && cacheOk(st) && cacheOwned(st) && st.Store != nil && !has(st.CurrentBalanceQuery, "world")
 //@   ensures [nothing-forgotten] {C10,C11} cacheGrew(st) && heapsame(bigint) && innerGrew(st)
-//@   ensures [coherent] {C10} forallstr(a, c, known(st, a, c) && !old(known(st, a, c)) ==> val(st.CachedBalances[a][c]) == storeBal(a, c))
-//@   ensures [asks-superset-of-need] {C10} result == nil ==> forallstr(a, c, old(pending(st, a, c)) && !old(known(st, a, c)) ==> known(st, a, c) || storeBal(a, c) == 0)
+//@   ensures [coherent] {C09,C10} forallstr(a, c, known(st, a, c) && !old(known(st, a, c)) ==> val(st.CachedBalances[a][c]) == storeBal(a, c))
+//@   ensures [asks-superset-of-need] {C09,C10} result == nil ==> forallstr(a, c, old(pending(st, a, c)) && !old(known(st, a, c)) ==> known(st, a, c) || storeBal(a, c) == 0)
 //@   ensures [error-leaves-view] {C12} result != nil ==> forallstr(a, c, known(st, a, c) == old(known(st, a, c)))
 //@   ensures [query-map] st.CurrentBalanceQuery == old(st.CurrentBalanceQuery) || fresh(ref(st.CurrentBalanceQuery))
 //@   ensures [state-ok] queryOk(st) && cacheOk(st) && cacheOwned(st) && !has(st.CurrentBalanceQuery, "world")
 //@   modifies st.CurrentBalanceQuery, entries(st.CachedBalances), innermapsof(st)
 //@   loop 1
-//@     invariant [filtered] {C10} forallstr(a, c, seen(a) && pending(st, a, c) && !known(st, a, c) ==> has(filteredQuery, a) && filteredQuery[a] == st.CurrentBalanceQuery[a])
+//@     invariant [filtered] {C09,C10} forallstr(a, c, seen(a) && pending(st, a, c) && !known(st, a, c) ==> has(filteredQuery, a) && filteredQuery[a] == st.CurrentBalanceQuery[a])
 //@     invariant [fq] filteredQuery != nil && fresh(ref(filteredQuery)) && forallstr(a, has(filteredQuery, a) ==> has(st.CurrentBalanceQuery, a) && filteredQuery[a] == st.CurrentBalanceQuery[a])
 //@     invariant [cache] cacheOk(st) && cacheOwned(st) && cacheGrew(st) && innerGrew(st) && forallstr(a, c, known(st, a, c) == old(known(st, a, c)))
 //@   loop 2
-//@     invariant [filtered-others] {C10} forallstr(a, c, seen(a) && a != accountName && pending(st, a, c) && !known(st, a, c) ==> has(filteredQuery, a) && filteredQuery[a] == st.CurrentBalanceQuery[a])
+//@     invariant [filtered-others] {C09,C10} forallstr(a, c, seen(a) && a != accountName && pending(st, a, c) && !known(st, a, c) ==> has(filteredQuery, a) && filteredQuery[a] == st.CurrentBalanceQuery[a])
 //@     invariant [current] has(st.CurrentBalanceQuery, accountName) && st.CurrentBalanceQuery[accountName] == queriedCurrencies && has(st.CachedBalances, accountName) && st.CachedBalances[accountName] == cachedCurrenciesForAccount
-//@     invariant [inner] {C10} forall(j, 0, iter, !known(st, accountName, queriedCurrencies[j]) ==> has(filteredQuery, accountName) && filteredQuery[accountName] == queriedCurrencies)
+//@     invariant [inner] {C09,C10} forall(j, 0, iter, !known(st, accountName, queriedCurrencies[j]) ==> has(filteredQuery, accountName) && filteredQuery[accountName] == queriedCurrencies)
 //@     invariant [fq] filteredQuery != nil && fresh(ref(filteredQuery)) && forallstr(a, has(filteredQuery, a) ==> has(st.CurrentBalanceQuery, a) && filteredQuery[a] == st.CurrentBalanceQuery[a])
 //@     invariant [cache] cacheOk(st) && cacheOwned(st) && cacheGrew(st) && innerGrew(st) && forallstr(a, c, known(st, a, c) == old(known(st, a, c)))
 //@   loop 3
-//@     invariant [merged] {C10} forallstr(a, c, seen(a) && has(balances, a) && has(balances[a], c) && balances[a][c] != nil ==> known(st, a, c))
+//@     invariant [merged] {C09,C10} forallstr(a, c, seen(a) && has(balances, a) && has(balances[a], c) && balances[a][c] != nil ==> known(st, a, c))
 //@     invariant [coherent] {C10,C11} forallstr(a, c, known(st, a, c) && !old(known(st, a, c)) ==> val(st.CachedBalances[a][c]) == storeBal(a, c))
-//@     invariant [asked] {C10} forallstr(a, c, old(pending(st, a, c)) && !old(known(st, a, c)) ==> (has(balances, a) && has(balances[a], c) && balances[a][c] != nil) || storeBal(a, c) == 0)
+//@     invariant [asked] {C09,C10} forallstr(a, c, old(pending(st, a, c)) && !old(known(st, a, c)) ==> (has(balances, a) && has(balances[a], c) && balances[a][c] != nil) || storeBal(a, c) == 0)
 //@     invariant [external] {C11} ref(balances) < ref(st) && forallstr(a, has(balances, a) ==> ref(balances[a]) < ref(st))
 //@     invariant [cache-cells] st != nil && st.CachedBalances != nil && cacheCells(st)
 //@     invariant [cache] cacheOwned(st) && cacheGrew(st) && innerGrew(st) && queryOk(st)
@@ -587,12 +587,12 @@ package interpreter
 //@     invariant [cache-cells-distinct] cellsDistinct(st)
 //@   loop 4
 //@     assert [step-head] forallstr(a, c, athead(known(st, a, c)) ==> known(st, a, c) && st.CachedBalances[a][c] == athead(st.CachedBalances[a][c])) && forallstr(a, c, known(st, a, c) && !athead(known(st, a, c)) ==> a == account && c == asset && !athead(allocated(ref(st.CachedBalances[a][c]))))
-//@     invariant [merged-others] {C10} forallstr(a, c, seenOuter(a) && a != account && has(balances, a) && has(balances[a], c) && balances[a][c] != nil ==> known(st, a, c))
+//@     invariant [merged-others] {C09,C10} forallstr(a, c, seenOuter(a) && a != account && has(balances, a) && has(balances[a], c) && balances[a][c] != nil ==> known(st, a, c))
 //@     invariant [current] has(balances, account) && balances[account] == accountBalances && has(st.CachedBalances, account) && st.CachedBalances[account] == cached
 //@     invariant [external] {C11} ref(balances) < ref(st) && forallstr(a, has(balances, a) ==> ref(balances[a]) < ref(st)) && ref(accountBalances) < ref(st) && ref(cached) > ref(st)
-//@     invariant [merged-inner] {C10} forallstr(c, seen(c) && has(accountBalances, c) && accountBalances[c] != nil ==> known(st, account, c))
+//@     invariant [merged-inner] {C09,C10} forallstr(c, seen(c) && has(accountBalances, c) && accountBalances[c] != nil ==> known(st, account, c))
 //@     invariant [coherent] {C10,C11} forallstr(a, c, known(st, a, c) && !old(known(st, a, c)) ==> val(st.CachedBalances[a][c]) == storeBal(a, c))
-//@     invariant [asked] {C10} forallstr(a, c, old(pending(st, a, c)) && !old(known(st, a, c)) ==> (has(balances, a) && has(balances[a], c) && balances[a][c] != nil) || storeBal(a, c) == 0)
+//@     invariant [asked] {C09,C10} forallstr(a, c, old(pending(st, a, c)) && !old(known(st, a, c)) ==> (has(balances, a) && has(balances[a], c) && balances[a][c] != nil) || storeBal(a, c) == 0)
 //@     invariant [cache-cells] st != nil && st.CachedBalances != nil && cacheCells(st)
 //@     invariant [cache] cacheOwned(st) && cacheGrew(st) && innerGrew(st) && queryOk(st)
 //@     invariant [step-grew] forallstr(a, c, atouter(known(st, a, c)) ==> known(st, a, c) && st.CachedBalances[a][c] == atouter(st.CachedBalances[a][c])) && forallstr(a, c, known(st, a, c) && !atouter(known(st, a, c)) ==> a == account && atouter(allocated(ref(st))) && !atouter(allocated(ref(st.CachedBalances[a][c]))))
